@@ -10,7 +10,9 @@ CONSTANTS ReqP, ReqN,          \* BLE request: plaintext fragment sizes x body l
           RespSt,              \* statuses
           RealQ,               \* accessory fragment sizes for long bodies
           CoapNsA, OkLensA, ErrStA, ErrLensA, FaultLensA,      \* CoAP batches: sizes x item variants (A)
-          CoapNsB, OkLensB, ErrStB, ErrLensB, FaultLensB       \* (B)
+          CoapNsB, OkLensB, ErrStB, ErrLensB, FaultLensB,      \* (B)
+          MapN, OkLensM, ErrStM, FaultLensM,                   \* repeated ids: every equality pattern of 1..MapN items x variants (M)
+          MapLong, OkLensL, ErrStL                             \* longer batches with one repeat at every pair of positions (L)
 
 \* body lengths around every fragment boundary (first fragment carries a, continuations b), and the largest
 Around(a, b, lo) ==
@@ -35,6 +37,17 @@ Variants(okL, errS, errL, fltL) ==
 VA == Variants(OkLensA, ErrStA, ErrLensA, FaultLensA)
 VB == Variants(OkLensB, ErrStB, ErrLensB, FaultLensB)
 
+VM == Variants(OkLensM, ErrStM, {0}, FaultLensM)
+VL == Variants(OkLensL, ErrStL, {0}, {})
+\* equality patterns of the requested ids as restricted growth strings (1, then at most one more than the maximum so far)
+RECURSIVE RGS(_)
+MaxOf(sq) == IF sq = << >> THEN 0 ELSE CHOOSE m \in 1..Len(sq) : (\E i \in 1..Len(sq) : sq[i] = m) /\ \A i \in 1..Len(sq) : sq[i] <= m
+RGS(n) == IF n = 0 THEN { << >> } ELSE { Append(sq, l) : sq \in RGS(n - 1), l \in 1..n } \ { sq \in { Append(q, l) : q \in RGS(n - 1), l \in 1..n } : sq[n] > MaxOf(SubSeq(sq, 1, n - 1)) + 1 }
+\* n items, all distinct except that item j repeats item i
+OneRepeat(n) == { [k \in 1..n |-> IF k < ij[2] THEN k ELSE IF k = ij[2] THEN ij[1] ELSE k - 1] : ij \in { x \in (1..n) \X (1..n) : x[1] < x[2] } }
+Apis == {"read", "other"}
+MapCase(its, ids, api) == [part |-> "coap", items |-> its, ids |-> ids, api |-> api]
+
 \* (nested quantifiers instead of one big set: TLC's UNION is quadratic)
 Init ==
     \/ \E p \in ReqP, n \in ReqN, e \in {0, 1} : \E c \in CtrsFor(e) : ReqInit(ReqCase(p, e, n, c))
@@ -44,8 +57,10 @@ Init ==
     \/ \E st \in RespSt, e \in {0, 1} : \E c \in CtrsFor(e), f \in Faults(<<0>>) : RespInit(RespCase(0, st, 1, <<0>>, f, e, c))
     \/ \E q \in RealQ, st \in RespSt, e \in {0, 1} : \E m \in RespBoundary(q), c \in CtrsFor(e) : \E f \in FewFaults(SplitBy(m, q)) :
             RespInit(RespCase(m, st, 0, SplitBy(m, q), f, e, c))
-    \/ \E n \in CoapNsA : \E its \in [1..n -> VA] : CoapInit([part |-> "coap", items |-> its])
-    \/ \E n \in CoapNsB : \E its \in [1..n -> VB] : CoapInit([part |-> "coap", items |-> its])
+    \/ \E n \in CoapNsA : \E its \in [1..n -> VA] : CoapInit(MapCase(its, << >>, "read"))
+    \/ \E n \in CoapNsB : \E its \in [1..n -> VB] : CoapInit(MapCase(its, << >>, "read"))
+    \/ \E n \in 1..MapN, api \in Apis : \E ids \in RGS(n), its \in [1..n -> VM] : CoapInit(MapCase(its, ids, api))
+    \/ \E n \in MapLong, api \in Apis : \E ids \in OneRepeat(n), its \in [1..n -> VL] : CoapInit(MapCase(its, ids, api))
 Spec == Init /\ [][Next]_vars
 
 \* ---------------------------------------------------------------------- export
@@ -86,7 +101,17 @@ RespSeq ==
     IN Over(RespM, A) \o S0 \o Over(RealQ, B)
 CoapSeq(ns, V) == Over(ns, LAMBDA n : SetToSeq({ CoapRec(its) : its \in [1..n -> V] }))
 
+\* repeated ids: per distinct characteristic the set of allowed dictionary entries (<<"none", 0, 0>> = no entry)
+AllowedEntries(c, L) ==
+    { IF c.api # "read" /\ Expected(c, i).k = "ok" THEN <<"none", 0, 0>>
+      ELSE <<Expected(c, i).k, Expected(c, i).item, Expected(c, i).len>> : i \in Own(c, L) }
+MapRec(c) == [part |-> "coapmap", items |-> [i \in 1..Len(c.items) |-> <<c.items[i].oc, c.items[i].s, c.items[i].len>>],
+              ids |-> c.ids, api |-> c.api, allowed |-> [L \in 1..NLabels(c) |-> SetToSeq(AllowedEntries(c, L))]]
+MapSeq(ns, Pat(_), V) ==
+    Over(ns, LAMBDA n : Over(Pat(n), LAMBDA ids : SetToSeq({ MapRec(MapCase(its, ids, api)) : its \in [1..n -> V], api \in Apis })))
+
 ExportCases ==
     /\ TLCGet("stats").generated >= 0
-    /\ ndJsonSerialize(IOEnv.CASES_OUT, ReqSeq \o RespSeq \o CoapSeq(CoapNsA, VA) \o CoapSeq(CoapNsB, VB))
+    /\ ndJsonSerialize(IOEnv.CASES_OUT, ReqSeq \o RespSeq \o CoapSeq(CoapNsA, VA) \o CoapSeq(CoapNsB, VB)
+                                          \o MapSeq(1..MapN, RGS, VM) \o MapSeq(MapLong, OneRepeat, VL))
 =============================================================================
